@@ -448,6 +448,19 @@ func render(sb *strings.Builder, v any, depth int) {
 		}
 		sb.WriteByte(']')
 	default:
+		// 64-bit integers a double cannot hold are written out exactly
+		switch t := v.(type) {
+		case int64:
+			if t >= 1<<53 || t <= -(1<<53) {
+				sb.WriteString(strconv.FormatInt(t, 10))
+				return
+			}
+		case uint64:
+			if t >= 1<<53 {
+				sb.WriteString(strconv.FormatUint(t, 10))
+				return
+			}
+		}
 		if f, ok := Num(v); ok {
 			sb.WriteString(fmtNum(f))
 			return
